@@ -29,7 +29,7 @@ BUDGET = 4000            # traced lines of /repo code per call; legitimate cost 
 DFLT = "dflt"
 
 # the look-ups of these ops go through Mapping views (iteration + __getitem__): one op class for signatures
-OPCLASS = {"look2": "lookup", "iterlook": "view", "iternest": "view", "set": "store", "update": "store", "update2": "store", "get": "lookup", "getd": "lookup",
+OPCLASS = {"update3": "store", "look2": "lookup", "iterlook": "view", "iternest": "view", "set": "store", "update": "store", "update2": "store", "get": "lookup", "getd": "lookup",
            "del": "remove", "pop": "remove", "popd": "remove",
            "values": "values|items|==", "items": "values|items|==", "eq_dict": "values|items|==",
            "eq_cache": "values|items|=="}
@@ -129,6 +129,8 @@ class CacheSpec(Spec):
         ops += [("popitem",), ("clear",)]
         ops += [("update", k, v) for k in K for v in V]
         ops += [("update2", k1, k2) for k1 in K for k2 in K if k1 != k2]
+        # a list of pairs that is longer than a small cache and stores one key twice (the later value wins)
+        ops += [("update3", k1, k2) for k1 in K for k2 in K if k1 != k2]
         ops += [("setdefault", k, v) for k in K for v in V]
         # two look-ups / membership tests back to back, with no observation in between: state that one of them
         # leaves behind (a memo, a "same head as last time" test) must not survive into the next observation
@@ -300,6 +302,10 @@ class CacheSpec(Spec):
         if kind == "update2":
             self.code("c.update({%r: %r, %r: %r})" % (op[1], VALUES[0], op[2], VALUES[1]))
             return partial(c.update, {op[1]: VALUES[0], op[2]: VALUES[1]}), ("ok", None)
+        if kind == "update3":
+            pairs = [(op[1], VALUES[0]), (op[2], VALUES[1]), (op[2], VALUES[0])]
+            self.code("c.update(%r)" % (pairs,))
+            return partial(c.update, list(pairs)), ("ok", None)
         if kind == "setdefault":
             self.code("c.setdefault(%r, %r)" % (op[1], op[2]))
             return partial(c.setdefault, op[1], op[2]), ("ok", content.get(op[1], op[2]))
@@ -423,6 +429,7 @@ class CacheSpec(Spec):
              "iter": "list(c)", "keys": "list(c.keys())", "values": "list(c.values())", "items": "list(c.items())",
              "getd": "c.get(%r)", "pop": "c.pop(%r)", "popd": "c.pop(%r, 'dflt')", "popitem": "c.popitem()",
              "clear": "c.clear()", "update": "c.update({%r: %r})", "update2": "c.update({%r: 'a', %r: 'b'})",
+             "update3": "c.update([(%r, 'a'), (k2 := %r, 'b'), (k2, 'a')])",
              "setdefault": "c.setdefault(%r, %r)", "eq_dict": "c == <dict: %s>", "eq_cache": "c == <cache: %s>",
              "look2": "%s %r; %s %r (no observation in between)",
              "iterlook": "it = iter(c) [%s]; next(it), look-up of %r (*: every key) and list(c) alternately until it ends",
